@@ -124,6 +124,9 @@ pub struct Case {
     /// the node under test is the payer whose outputs the candidate blocks spend (its wallet is
     /// touched by winding and unwinding them)
     pub payer: bool,
+    /// the node under test drops the transactions of every block below its tip from memory
+    /// (prune_after_blocks = 1): unwinding the old segment reloads its blocks from disk
+    pub pruned: bool,
 }
 
 struct Built {
@@ -231,11 +234,17 @@ fn trace_fields(o: &Obs) -> Obs {
     x.pool_work = 0;
     x.pool_blocks.clear();
     x.pool_gts.clear();
+    // whether a stored block currently keeps its transactions in memory (Full) or has dropped
+    // them (Pruned) is a cache state, not part of what the property lists: a refused candidate
+    // may leave its parent loaded until the next block prunes it again
+    for b in x.blocks.iter_mut() {
+        b.3 = 0;
+    }
     x
 }
 
 fn run_case(c: &Case, rep: &mut Report, seen: &mut BTreeSet<Hash>) {
-    let ctx = json!({"g": c.g, "slow": c.slow, "a": c.a, "b": c.b, "pos": c.pos, "kind": format!("{:?}", c.kind), "own_creator": c.own, "node_is_payer": c.payer});
+    let ctx = json!({"g": c.g, "slow": c.slow, "a": c.a, "b": c.b, "pos": c.pos, "kind": format!("{:?}", c.kind), "own_creator": c.own, "node_is_payer": c.payer, "pruned": c.pruned});
     let bt = match build(c) {
         Ok(b) => b,
         Err(e) => {
@@ -246,8 +255,12 @@ fn run_case(c: &Case, rep: &mut Report, seen: &mut BTreeSet<Hash>) {
     let w = &bt.w;
     let _ = &bt.next_old;
     let node_key = if c.payer { key(1) } else if c.own { key(0) } else { key(9) };
-    let mut n = LedgerNode::new(node_key, w.cfg.clone());
-    let kprefix = format!("g{}/{:?}/pos{}of{}/a{}/slow{}{}", c.g, c.kind, c.pos + 1, c.b, c.a, c.slow, if c.payer { "/node-is-payer" } else { "" });
+    let mut ncfg = w.cfg.clone();
+    if c.pruned {
+        ncfg.consensus.prune_after_blocks = 1;
+    }
+    let mut n = LedgerNode::new(node_key, ncfg);
+    let kprefix = format!("g{}/{:?}/pos{}of{}/a{}/slow{}{}{}", c.g, c.kind, c.pos + 1, c.b, c.a, c.slow, if c.payer { "/node-is-payer" } else { "" }, if c.pruned { "/pruned" } else { "" });
     for &i in bt.stem.iter().chain(bt.old.iter()) {
         match n.add_block_bytes(&w.blocks[i].bytes) {
             Outcome::Done(AddRes::AddedLongest) => {}
@@ -439,12 +452,16 @@ pub fn cases(tier: &Tier) -> Vec<Case> {
                         }
                         let slows: Vec<u64> = if b == a + 2 && a >= 1 { vec![200, 300, 400, 625] } else { vec![200] };
                         for slow in slows {
-                            v.push(Case { g: 10, slow, a, b, pos, kind, own, payer: false });
+                            v.push(Case { g: 10, slow, a, b, pos, kind, own, payer: false, pruned: false });
+                            if !own && (kind == Bad::SignedField || kind == Bad::TxSpent || kind == Bad::TxSig) {
+                                v.push(Case { g: 10, slow, a, b, pos, kind, own, payer: false, pruned: true });
+                                v.push(Case { g: 10, slow, a, b, pos, kind, own, payer: true, pruned: true });
+                            }
                             if kind == Bad::SignedField || (tier.thorough && kind == Bad::TxSpent) {
-                                v.push(Case { g: 3, slow, a, b, pos, kind, own, payer: false });
+                                v.push(Case { g: 3, slow, a, b, pos, kind, own, payer: false, pruned: false });
                             }
                             if !own && (kind == Bad::SignedField || kind == Bad::TxSpent || kind == Bad::GtDensity) {
-                                v.push(Case { g: 10, slow, a, b, pos, kind, own, payer: true });
+                                v.push(Case { g: 10, slow, a, b, pos, kind, own, payer: true, pruned: false });
                             }
                         }
                     }
@@ -462,7 +479,7 @@ pub fn main(tier: Tier, replay: Option<String>) -> i32 {
         let v: Value = serde_json::from_str(&s).expect("json");
         let ctx = &v["case"]["ctx"];
         let kind = KINDS.iter().find(|k| format!("{:?}", k) == ctx["kind"].as_str().unwrap()).cloned().unwrap();
-        let c = Case { g: ctx["g"].as_u64().unwrap_or(10), slow: ctx["slow"].as_u64().unwrap_or(200), a: ctx["a"].as_u64().unwrap() as usize, b: ctx["b"].as_u64().unwrap() as usize, pos: ctx["pos"].as_u64().unwrap() as usize, kind, own: ctx["own_creator"].as_bool().unwrap(), payer: ctx["node_is_payer"].as_bool().unwrap_or(false) };
+        let c = Case { g: ctx["g"].as_u64().unwrap_or(10), slow: ctx["slow"].as_u64().unwrap_or(200), a: ctx["a"].as_u64().unwrap() as usize, b: ctx["b"].as_u64().unwrap() as usize, pos: ctx["pos"].as_u64().unwrap() as usize, kind, own: ctx["own_creator"].as_bool().unwrap(), payer: ctx["node_is_payer"].as_bool().unwrap_or(false), pruned: ctx["pruned"].as_bool().unwrap_or(false) };
         let mut outs = vec![];
         for _ in 0..2 {
             let mut r = rep.child();
